@@ -38,6 +38,10 @@ pub enum Filter {
     Failed,
     /// custom: failed hooks and ParsingFinished
     HooksAndParsingFinished,
+    /// custom: every event (run-Finished itself included)
+    Everything,
+    /// custom: run-level events only (run-Started, parser errors, ParsingFinished, run-Finished)
+    RunLevel,
 }
 
 #[derive(Clone, Copy, Debug, PartialEq)]
@@ -88,6 +92,8 @@ fn filter_matches(f: Filter, k: &Key) -> bool {
             What::Step { res: StepRes::FailedPanic(_) | StepRes::FailedAmbiguous | StepRes::FailedNotFound, .. } | What::HookFailed(..) | What::ParserError(_)
         ),
         Filter::HooksAndParsingFinished => matches!(&k.what, What::HookFailed(..) | What::ParsingFinished),
+        Filter::Everything => true,
+        Filter::RunLevel => matches!(&k.what, What::RunStarted | What::ParserError(_) | What::ParsingFinished | What::RunFinished),
     }
 }
 
@@ -229,6 +235,14 @@ fn hooks_and_pf(e: &Ev) -> bool {
     matches!(decode(e).what, What::HookFailed(..) | What::ParsingFinished)
 }
 
+fn all_events(_: &Ev) -> bool {
+    true
+}
+
+fn run_level(e: &Ev) -> bool {
+    matches!(decode(e).what, What::RunStarted | What::ParserError(_) | What::ParsingFinished | What::RunFinished)
+}
+
 fn sc_left<L: cli::Args, R: cli::Args>(e: &Ev, _: &cli::Compose<L, R>) -> bool {
     matches!(
         e.as_ref().map(|e| &e.value),
@@ -257,6 +271,7 @@ type T15 = writer::FailOnSkipped<writer::Tee<Rec, writer::Repeat<W, Rec>>>;
 type T16 = writer::Or<writer::FailOnSkipped<Rec>, writer::Repeat<W, Rec>, OrFn<E, E>>;
 type T17 = writer::Repeat<W, writer::Tee<Rec, Rec>>;
 type T18 = writer::Tee<discard::Stats<Rec>, writer::FailOnSkipped<Rec, SkipPred>>;
+type T19 = writer::Tee<writer::Repeat<W, Rec, EvFilter>, Rec>;
 
 dyn_writer!(T1, E, arbitrary = true);
 dyn_writer!(T3, E, arbitrary = true);
@@ -273,8 +288,9 @@ dyn_writer!(T15, C2, arbitrary = true);
 dyn_writer!(T16, C2, arbitrary = false);
 dyn_writer!(T17, C2, arbitrary = true);
 dyn_writer!(T18, C2, arbitrary = true);
+dyn_writer!(T19, C2, arbitrary = true);
 
-pub const ZOO_SIZE: usize = 18;
+pub const ZOO_SIZE: usize = 20;
 
 fn b(d: Desc) -> Box<Desc> {
     Box::new(d)
@@ -324,6 +340,12 @@ pub fn zoo(i: usize, r: &[Rec]) -> (Box<dyn DynWriter>, Desc, &'static str) {
             "Or<FailOnSkipped<Rec>, Repeat::failed<Rec>, even-timestamp-left>",
         ),
         16 => (Box::new(Dw { w: T17::failed(writer::Tee::new(r[0].clone(), r[1].clone())), cli: c2() }), R(b(T(b(L(0)), b(L(1)))), Filter::Failed), "Repeat::failed<Tee<Rec, Rec>>"),
+        18 => (Box::new(Dw { w: T5::new(r[0].clone(), all_events as EvFilter), cli: e() }), R(b(L(0)), Filter::Everything), "Repeat::new<Rec, every event>"),
+        19 => (
+            Box::new(Dw { w: T19::new(writer::Repeat::new(r[0].clone(), run_level as EvFilter), r[1].clone()), cli: c2() }),
+            T(b(R(b(L(0)), Filter::RunLevel)), b(L(1))),
+            "Tee<Repeat::new<Rec, run-level events>, Rec>",
+        ),
         _ => (
             Box::new(Dw { w: T18::new(discard::Stats::wrap(r[0].clone()), writer::FailOnSkipped::with(r[1].clone(), even_line as SkipPred)), cli: c2() }),
             T(b(DS(b(L(0)))), b(F(b(L(1)), Pred::EvenLine))),
